@@ -396,6 +396,19 @@ func c08Shadow() []*progCase {
 		out = append(out, &progCase{P: &Program{Funcs: []*Func{scale, setIn, inner, outer, bound, fact, alts}, Rules: []*Rule{{Kind: "BEGIN", Body: Blk(body...)}}}})
 		out = append(out, &progCase{P: &Program{Funcs: []*Func{scale, setIn, inner, outer, bound, fact, alts}, Rules: []*Rule{{Body: Blk(body...)}}}, Files: []inFile{{"in.json", "[1,2]"}}})
 	}
+	// an omitted parameter is null and is the callee's own, also when a global or a caller's variable has its name
+	label := &Func{Name: "label", Params: []string{"x", "sep"}, Body: Blk(Pr(S("label sees"), &IsExpr{V("sep"), "null"}), &If{Cond: &IsExpr{V("sep"), "null"}, Then: Blk(Ex(Asg("=", V("sep"), S("-"))))}, &Return{X: Bin("+", V("x"), V("sep"))})}
+	path := &Func{Name: "path", Params: []string{"n", "prefix"}, Body: Blk(&If{Cond: Bin("<=", V("n"), N("0")), Then: Blk(&Return{X: Arr_(&IsExpr{V("prefix"), "null"})})}, Ex(Asg("=", V("prefix"), Bin("+", S("p"), V("n")))), &Return{X: Arr_(V("prefix"), CallE(V("path"), Bin("-", V("n"), N("1"))))})}
+	out = append(out, &progCase{P: &Program{Funcs: []*Func{label, path}, Rules: []*Rule{{Kind: "BEGIN", Body: Blk(
+		Ex(Asg("=", V("sep"), S(":"))), Ex(Asg("=", V("prefix"), S("global"))),
+		Pr(CallE(V("label"), S("a")), CallE(V("label"), S("b"), S("+")), CallE(V("label"), S("c"))), Pr(S("global sep"), V("sep")),
+		Pr(CallE(V("path"), N("2"))), Pr(S("global prefix"), V("prefix")))}}}})
+	// a program's own function that has the name of a built-in is the one that is called
+	for _, name := range []string{"num", "json", "printf"} {
+		own := &Func{Name: name, Params: []string{"x", "y"}, Body: Blk(Pr(S("own "+name), V("x"), V("y")), &Return{X: Bin("*", V("x"), N("10"))})}
+		wrap := &Func{Name: "wrap", Params: []string{"v"}, Body: Blk(&Return{X: CallE(V(name), V("v"), S("via wrap"))})}
+		out = append(out, &progCase{P: &Program{Funcs: []*Func{own, wrap}, Rules: []*Rule{{Body: Blk(Pr(CallE(V(name), V("$"), S("direct")), CallE(V("wrap"), V("$"))))}}}, Files: []inFile{{"in.json", "[2.5,4]"}}})
+	}
 	return out
 }
 
